@@ -14,7 +14,7 @@ VERIF = os.path.dirname(os.path.dirname(os.path.abspath(__file__)))
 EVIDENCE_DIR = os.path.join(VERIF, 'evidence')
 REPLAY_DIR = os.path.join(VERIF, 'replays')
 FINDINGS = os.path.join(VERIF, 'known_findings.json')
-ITEM_TIMEOUT = int(os.environ.get('VERIF_ITEM_TIMEOUT', '600'))
+ITEM_TIMEOUT = int(os.environ.get('VERIF_ITEM_TIMEOUT', '2400'))
 NPROC = int(os.environ.get('VERIF_NPROC', '0')) or min(16, os.cpu_count() or 1)
 
 
